@@ -272,4 +272,26 @@ def c11(ctx):
     return res
 
 
-PLUGINS = {"C11": c11, "C02": c02, "C06": c06, "C10": c10, "C05": c05, "C09": c09, "C04": c04, "C07": c07, "C12": c12}
+def c08(ctx):
+    """C08 failed commit: for each workload the I/O calls of its last commit are counted, then the history is re-run once per call index k (every WriteAt, fdatasync, Truncate, file Sync
+    and mmap of that commit) with the hook returning an error INSTEAD of performing the call, with and without a read transaction held across the failure; afterwards: dump through a new
+    reader and the held reader, Tx.Check, decoder accounting of the file image, a further write transaction, reopen, dump, Tx.Check. Compared with Spec.v (old state; new state iff the failed call is the
+    sync after the meta write). After a failed mmap, Begin returning ErrInvalidMapping counts as 'not blocking'."""
+    res = Result()
+    res.rule = ("one case = (workload, failing call index k, reader held or not); distinct by MD5 of the op list; non-trivial if the fault hit (flag fault-<kind>); "
+                "workloads: 1-4 committed transactions then a burst of 3-43 puts (values up to 3 pages), page sizes 1024-16384, both backends, freelist-sync on/off, small initial map (remap in the failing commit)")
+    with ctx:
+        n = "3" if ctx.tier == "quick" else "40"
+        shards = 8 if ctx.tier == "quick" else 16
+        if ctx.replay:
+            runs = run_sharded(ctx, "c08", 1, lambda i: ["-replay", ctx.replay, "-dir", "{dir}"], 900)
+        else:
+            runs = run_sharded(ctx, "c08", shards, lambda i: ["-seed", str(ctx.seed * 1000 + i), "-n", n, "-dir", "{dir}"], ctx.budget_s or (900 if ctx.tier == "quick" else 3000))
+        for r in runs:
+            absorb(res, "C08", *r)
+    res.propfails += res.mismatches      # Spec is the reference: a deviation is a concrete failing fault sequence
+    res.mismatches = []
+    return res
+
+
+PLUGINS = {"C08": c08, "C11": c11, "C02": c02, "C06": c06, "C10": c10, "C05": c05, "C09": c09, "C04": c04, "C07": c07, "C12": c12}
